@@ -511,19 +511,40 @@ __make_ywd_c(unsigned int y, unsigned int c, dt_dow_t w, unsigned int cc)
 		canon_yc(y, c, hang);
 		break;
 	case YWD_SUNWK_CNT:
-		if (j01 == DT_SUNDAY) {
+		if (w) {
+			goto via_yd;
+		} else if (j01 == DT_SUNDAY) {
 			;
 		} else {
 			c++;
 		}
 		break;
 	case YWD_MONWK_CNT:
-		if (j01 <= DT_MONDAY) {
+		if (w) {
+			goto via_yd;
+		} else if (j01 <= DT_MONDAY) {
 			;
 		} else {
 			c++;
 		}
 		break;
+	via_yd: {
+		/* week 1 begins on the first sunday/monday of the year,
+		 * go through the day of the year to find the iso week */
+		int yd = 1 + GREG_DAYS_P_WEEK * ((int)c - 1);
+
+		if (cc == YWD_SUNWK_CNT) {
+			yd += (DT_SUNDAY - j01) % GREG_DAYS_P_WEEK;
+			yd += w % GREG_DAYS_P_WEEK;
+		} else {
+			yd += (DT_SUNDAY + 1 - j01) % GREG_DAYS_P_WEEK;
+			yd += w - DT_MONDAY;
+		}
+		c = (yd + GREG_DAYS_P_WEEK - 1 - hang) /
+			(signed int)GREG_DAYS_P_WEEK;
+		canon_yc(y, c, hang);
+		break;
+	}
 	}
 
 	/* assign and fuck off */
